@@ -1,33 +1,50 @@
 #!/usr/bin/env python3
 """Refresh the detection fields of every /verif/seeded/<id>/meta.json with the current checker.
 usage: redetect.py [servcheck binary]
-Each patch is applied in the scratch worktree /tmp/scratch/w2 (never /repo), `servcheck -all` is run on it,
+Each patch is applied in one of six scratch worktrees /tmp/scratch/lane1..6 (never /repo), `servcheck -all` is run on it,
 and the rules that report a violation are recorded. The first detection result is kept as
-'detected_when_first_run' so that the history (what the checks missed before being strengthened) stays visible."""
+'detected_when_first_run' so that the history (what the checks missed before being strengthened) stays visible.
+A run that ends in anything but exit status 0 or 1 is recorded as 'checker_broken' and printed."""
 import json, os, re, subprocess, sys, glob
+from concurrent.futures import ThreadPoolExecutor
 BIN = sys.argv[1] if len(sys.argv) > 1 else '/verif/bin/servcheck'
-W = '/tmp/scratch/w2'
 ENV = dict(os.environ, GOFLAGS='-mod=mod', GOPROXY='off', GOSUMDB='off', GOTOOLCHAIN='local')
 head = subprocess.check_output('git -C /repo rev-parse HEAD', shell=True, text=True).strip()
-def sh(c):
-    return subprocess.run(c, shell=True, cwd=W, env=ENV, capture_output=True, text=True)
-for d in sorted(glob.glob('/verif/seeded/*/')):
-    meta = json.load(open(d + 'meta.json'))
-    prop = meta['breaks_property']
-    if meta.get('obsolete_since'):
-        print(meta['id'], 'obsolete, skipped'); continue
-    sh(f'git checkout -q --detach {head} && git checkout -q -- . && git clean -fdq')
-    if sh(f'git apply {d}patch.diff').returncode != 0:
-        print(meta['id'], 'NOAPPLY'); continue
-    out = sh(f'{BIN} -all -repo {W} -verif /tmp/scratch/v2').stdout
-    sh('git checkout -q -- . && git clean -fdq')
-    rules = sorted(set(re.findall(r'^  rule (C\d\d\.[A-Z]\d+)', out, re.M)))
-    own = [r for r in rules if r.startswith(prop)]
-    other = [r for r in rules if not r.startswith(prop)]
-    if 'detected_when_first_run' not in meta:
-        meta['detected_when_first_run'] = {'own': meta.get('detected_by_own_property_rules', []), 'other': meta.get('also_reported_by', [])}
-    meta['detected_by_own_property_rules'] = own
-    meta['also_reported_by'] = other
-    meta['detected'] = bool(own)
-    json.dump(meta, open(d + 'meta.json', 'w'), indent=1)
-    print(f"{meta['id']:9s} own={own} other={other}")
+dirs = sorted(glob.glob('/verif/seeded/*/'))
+def lane_work(lane):
+    W = f'/tmp/scratch/lane{lane}'
+    if not os.path.isdir(W):
+        subprocess.run(f'git -C /repo worktree add -q --detach {W} HEAD', shell=True)
+    def sh(c):
+        return subprocess.run(c, shell=True, cwd=W, env=ENV, capture_output=True, text=True)
+    out_lines = []
+    for d in dirs[lane-1::6]:
+        meta = json.load(open(d + 'meta.json'))
+        prop = meta['breaks_property']
+        if meta.get('obsolete_since'):
+            out_lines.append(f"{meta['id']} obsolete, skipped"); continue
+        sh(f'git checkout -q --detach {head} && git checkout -q -- . && git clean -fdq')
+        if sh(f'git apply {d}patch.diff').returncode != 0:
+            out_lines.append(f"{meta['id']} NOAPPLY"); continue
+        r = sh(f'{BIN} -all -repo {W} -verif /tmp/scratch/vlane{lane}')
+        sh('git checkout -q -- . && git clean -fdq')
+        out = r.stdout + r.stderr
+        rules = sorted(set(re.findall(r'^  rule (C\d\d\.[A-Z]\d+)', out, re.M)))
+        own = [x for x in rules if x.startswith(prop)]
+        other = [x for x in rules if not x.startswith(prop)]
+        if 'detected_when_first_run' not in meta:
+            meta['detected_when_first_run'] = {'own': meta.get('detected_by_own_property_rules', []), 'other': meta.get('also_reported_by', [])}
+        meta['detected_by_own_property_rules'] = own
+        meta['also_reported_by'] = other
+        meta['detected'] = bool(own)
+        if r.returncode not in (0, 1):
+            meta['checker_broken'] = [l for l in out.splitlines() if l.startswith('CHECK-BROKEN') or l.startswith('panic')][:3]
+        else:
+            meta.pop('checker_broken', None)
+        json.dump(meta, open(d + 'meta.json', 'w'), indent=1)
+        out_lines.append(f"{meta['id']:9s} own={own} other={other}" + (f" BROKEN rc={r.returncode}" if r.returncode not in (0, 1) else ''))
+    return out_lines
+with ThreadPoolExecutor(6) as ex:
+    for lines in ex.map(lane_work, range(1, 7)):
+        for l in lines:
+            print(l)
